@@ -35,6 +35,14 @@ static void load_inputs(void) {
 #endif
 }
 
+
+/* representation invariant of a session table as far as consumers outside the table code rely on it */
+static bool tab_consistent(const session_table *t) {
+    unsigned nv = 0; bool allc = true;
+    for (int i = 0; i < SESSION_TABLE_MAX_ENTRIES; i++) if (t->entries[i].valid) { nv++; if (!t->entries[i].complete) allc = false; }
+    return t->count == nv && t->all_complete == allc;
+}
+
 static unsigned g_hello_calls;
 static int g_iface_token;
 static uint64_t g_last_tx;
@@ -66,7 +74,8 @@ static void build(void) {
     E->current_state = in.en_state; E->last_ts = in.en_last_ts;
     B = (band_state *)E->extra;
     *B = in.band;
-    *T = in.tab;     /* count and all_complete deliberately arbitrary */
+    *T = in.tab;
+    V_ASSUME(tab_consistent(T));     /* count = live sessions, all_complete exact (C16's invariant) */
     V_ASSUME(in.last_tx <= in.now_ms);
     g_last_tx = in.last_tx;
     P.network_interface = in.have_ni ? (void *)&g_iface_token : 0;
